@@ -148,7 +148,8 @@ def close(out, ref, tol, alt=None):
     out = np.asarray(out, dtype=np.float64)
     rn, on = np.isnan(ref), np.isnan(out)
     with np.errstate(invalid="ignore"):
-        good = np.abs(out - ref) <= tol
+        # an infinite reference value is matched exactly (its tolerance, scaled by the window's magnitude, is infinite too)
+        good = np.where(np.isinf(ref), out == ref, (np.abs(out - ref) <= tol) | (out == ref))
         if alt is not None:
             good |= (out == alt)
         bad = (rn != on) | (~rn & ~on & ~good)
